@@ -81,7 +81,7 @@ def _is_stable_ref(v: ast.AST, roots: set[str], consts: set[str]) -> bool:
     return False
 
 
-def _inline_aliases(fn: ast.FunctionDef, consts: set[str]) -> None:
+def _inline_aliases(fn: ast.FunctionDef, consts: set[str], nested_blocks: bool = True) -> None:
     """In place: a local that is bound exactly once, by a plain assignment at the top level of the function body, to a
     stable reference (see _is_stable_ref) is replaced by that expression at every use and the binding is dropped.
     `lumps = self.lumps; lumps[K].data = x` thus reads `self.lumps[K].data = x`, `order = LUMP_REBUILD_ORDER; for v in order`
@@ -106,20 +106,58 @@ def _inline_aliases(fn: ast.FunctionDef, consts: set[str]) -> None:
         rebound = any(isinstance(n, ast.Attribute) and isinstance(n.ctx, (ast.Store, ast.Del)) and isinstance(n.value, ast.Name)
                       and n.value.id in roots and n.attr in STABLE_ATTRS for n in ast.walk(fn))
         subst: dict[str, ast.AST] = {}
+
+        def binding(st: ast.stmt) -> tuple[str | None, ast.AST | None]:
+            if isinstance(st, ast.Assign) and len(st.targets) == 1 and isinstance(st.targets[0], ast.Name):
+                return st.targets[0].id, st.value
+            if isinstance(st, ast.AnnAssign) and isinstance(st.target, ast.Name) and st.value is not None:
+                return st.target.id, st.value
+            return None, None
         keep = []
         for st in fn.body:
-            tg = val = None
-            if isinstance(st, ast.Assign) and len(st.targets) == 1 and isinstance(st.targets[0], ast.Name):
-                tg, val = st.targets[0].id, st.value
-            elif isinstance(st, ast.AnnAssign) and isinstance(st.target, ast.Name) and st.value is not None:
-                tg, val = st.target.id, st.value
+            tg, val = binding(st)
             if tg is not None and tg not in params and stores.get(tg) == 1 and not rebound and tg not in subst \
                     and _is_stable_ref(val, roots, consts) and not any(isinstance(x, ast.Name) and x.id in subst for x in ast.walk(val)):
                 subst[tg] = val
             else:
                 keep.append(st)
+        fn.body = keep
+        # the same for a binding inside a nested block (`if ids: lump = self.lumps[K]; lump.data = ...`), provided every use of
+        # the name lies in the statements that follow the binding in that block (so the binding always ran before the use)
+        all_loads: dict[str, int] = {}
+        for n in ast.walk(fn):
+            if isinstance(n, ast.Name) and isinstance(n.ctx, ast.Load):
+                all_loads[n.id] = all_loads.get(n.id, 0) + 1
+
+        def nested(stmts: list[ast.stmt], top: bool) -> None:
+            i = 0
+            while i < len(stmts):
+                st = stmts[i]
+                tg, val = (None, None) if top else binding(st)
+                if tg is not None and tg not in params and stores.get(tg) == 1 and not rebound and tg not in subst \
+                        and _is_stable_ref(val, roots, consts) and not any(isinstance(x, ast.Name) and x.id in subst for x in ast.walk(val)):
+                    after = sum(1 for later in stmts[i + 1:] for n in ast.walk(later)
+                                if isinstance(n, ast.Name) and isinstance(n.ctx, ast.Load) and n.id == tg)
+                    if after == all_loads.get(tg, 0):
+                        subst[tg] = val
+                        del stmts[i]
+                        continue
+                for field in ('body', 'orelse', 'finalbody'):
+                    sub = getattr(st, field, None)
+                    if isinstance(sub, list) and sub and isinstance(sub[0], ast.stmt):
+                        nested(sub, False)
+                        if not sub:
+                            sub.append(ast.Pass())
+                for h in getattr(st, 'handlers', []) or []:
+                    nested(h.body, False)
+                    if not h.body:
+                        h.body.append(ast.Pass())
+                i += 1
+        if nested_blocks:
+            nested(fn.body, True)
         if not subst:
             return
+        keep = fn.body
 
         class Sub(ast.NodeTransformer):
             def visit_Name(self, node: ast.Name):
@@ -317,7 +355,8 @@ class _Module:
             if isinstance(n, ast.ClassDef) and n.name in ('BSP', 'ParsedLump'):
                 for f in n.body:
                     if isinstance(f, ast.FunctionDef):
-                        _inline_aliases(f, self.const_names)
+                        # ParsedLump.__get__ / __set__ are read path by path with their local aliases of the lump objects: top level only
+                        _inline_aliases(f, self.const_names, nested_blocks=n.name == 'BSP' and f.name not in ('save', 'read'))
         for n in self.tree.body:
             if isinstance(n, ast.ClassDef) and n.name == 'BSP_LUMPS':
                 for st in n.body:
@@ -881,8 +920,8 @@ def _mutations_come_last(fn: ast.FunctionDef, sites: list[ast.AST]) -> bool:
     """True when, from the first top-level statement of `fn` that contains one of the mutation `sites` on, the function
     consists only of: the mutation statements themselves (a mutating call as a statement, an assignment / deletion whose
     target is a site, with a plain name or constant as value), `for` loops over an attribute chain and `if` tests made of
-    comparisons, boolean operators, subscripts, attribute chains and pure string tests around such statements, `pass` and
-    a final `return <name>`.  Then nothing that could raise for lack of data follows the first change (the tests were
+    comparisons, boolean operators, subscripts, attribute chains and pure string tests around such statements, plain locals
+    bound from such expressions, `pass` and a final `return <name>`.  Then nothing that could raise for lack of data follows the first change (the tests were
     all evaluated before, by whatever decided that the lump parses)."""
     ids = {id(x) for x in sites}
     first = None
@@ -924,7 +963,10 @@ def _mutations_come_last(fn: ast.FunctionDef, sites: list[ast.AST]) -> bool:
             c = st.value
             return isinstance(c, ast.Call) and id(c) in ids and all(plain(a) for a in c.args) and not c.keywords
         if isinstance(st, ast.Assign):
-            return all(id(t) in ids for t in st.targets) and plain(st.value)
+            if all(id(t) in ids for t in st.targets) and plain(st.value):
+                return True
+            # a local bound from a pure read of the same kind as the tests (`key = ent['model']` before `if key.startswith(...)`)
+            return len(st.targets) == 1 and isinstance(st.targets[0], ast.Name) and id(st.targets[0]) not in ids and test(st.value)
         if isinstance(st, ast.Delete):
             return all(id(t) in ids for t in st.targets)
         if isinstance(st, ast.For):
